@@ -5,7 +5,11 @@ root = os.path.dirname(os.path.dirname(os.path.abspath(__file__)))
 out = []
 for p in sorted(glob.glob(os.path.join(root, "findings", "*.json"))):
     try:
-        out.extend(json.load(open(p)))
+        data = json.load(open(p))
+        if not isinstance(data, list) or not all(isinstance(x, dict) and "property" in x for x in data):
+            print("skip (not a findings list)", p)
+            continue
+        out.extend(data)
     except Exception as e:
         print("skip", p, e)
 json.dump({"findings": out}, open(os.path.join(root, "known_findings.json"), "w"), indent=1)
